@@ -278,7 +278,7 @@ pub fn run(ctx: &Ctx, which: &str) -> ! {
     }
     if thorough {
         // bound 3 on the focused pairs; three servers at bound 1
-        for spec in pair_systems(&[("P1", "P2"), ("P1", "P3"), ("P1", "P4"), ("P2", "P10")], &[true]) {
+        for spec in pair_systems(&quick_pairs, &[false, true]).into_iter().chain(pair_systems(&[("P2", "P10"), ("P4", "P10"), ("P7", "P2"), ("P11", "P1")], &[true])) {
             run_spec(&spec, 3, false, &mut tot, &mut violations, &mut sample);
         }
         for spec in triple_systems() {
